@@ -102,6 +102,36 @@ def generate():
     if g != want: fail(fns['get_operation_mode'], 'get_operation_mode does not have the modelled shape')
 
     def bl(h): return '[' + '; '.join(str(b) for b in bytes.fromhex(h)) + ']'
+
+    # guarded setters / getters: set_grid_export_limit, set_ongrid_battery_dod and their getters (ET and DT)
+    def guarded(cls_fns, fam, setter, getter, arg):
+        fs, fg = cls_fns.get(setter), cls_fns.get(getter)
+        if not isinstance(fs, ast.AsyncFunctionDef) or [a.arg for a in fs.args.args] != ['self', arg]: raise Unsupported(f'om2v: {fam}.{setter} signature')
+        sb = [n for n in fs.body if not (isinstance(n, ast.Expr) and isinstance(n.value, ast.Constant)) and not is_log(n)]
+        if len(sb) == 1 and isinstance(sb[0], ast.Raise): return None          # "Operation not supported"
+        if len(sb) != 1 or not isinstance(sb[0], ast.If) or sb[0].orelse or len(sb[0].body) != 1: fail(fs, f'{setter} is not one guarded write')
+        t = ast.unparse(sb[0].test)
+        if t == f'{arg} >= 0': lo, hi = 'Some 0', 'None'
+        else:
+            mm = re.fullmatch(rf'(-?\d+) <= {arg} <= (-?\d+)', t)
+            if not mm: fail(sb[0].test, 'guard not understood')
+            lo, hi = f'Some ({mm.group(1)})', f'Some ({mm.group(2)})'
+        w = ast.unparse(sb[0].body[0])
+        mw = re.fullmatch(rf"(?:return )?await self\.write_setting\('(\w+)', (?:(\d+) - )?{arg}\)", w)
+        if not mw: fail(sb[0].body[0], 'guarded statement is not a write_setting of the argument')
+        gb = [ast.unparse(n) for n in fg.body if not (isinstance(n, ast.Expr) and isinstance(n.value, ast.Constant))]
+        mg = re.fullmatch(r"return (?:(\d+) - )?await self\.read_setting\('(\w+)'\)", gb[0]) if len(gb) == 1 else None
+        if not mg: fail(fg, f'{getter} is not a read_setting')
+        if mg.group(2) != mw.group(1) or mg.group(1) != mw.group(2): fail(fg, f'{getter} / {setter} do not use the same setting and complement')
+        compl = f'Some {mw.group(2)}' if mw.group(2) else 'None'
+        return f'Some (mkGS "{mw.group(1)}"%string ({lo}) ({hi}) ({compl}))'
+    dtt = ast.parse(open(os.path.join(REPO, 'goodwe', 'dt.py')).read(), 'dt.py')
+    dcls = next(c for c in dtt.body if isinstance(c, ast.ClassDef) and c.name == 'DT')
+    dfns = {n.name: n for n in dcls.body if isinstance(n, (ast.FunctionDef, ast.AsyncFunctionDef))}
+    gs = {}
+    for fam, f in (('et', fns), ('dt', dfns)):
+        gs[f'{fam}_export_limit'] = guarded(f, fam, 'set_grid_export_limit', 'get_grid_export_limit', 'export_limit')
+        gs[f'{fam}_dod'] = guarded(f, fam, 'set_ongrid_battery_dod', 'get_ongrid_battery_dod', 'dod')
     out = ["(* GENERATED by tools/om2v.py from goodwe/et.py and goodwe/inverter.py -- do not edit.  Regenerated on every check run. *)",
            "From Coq Require Import ZArith List String.", "From GW Require Import Modes.", "Import ListNotations.", "Open Scope Z_scope.", ""]
     out.append('Definition om_values : list (mode * Z) := [' + '; '.join(f'({MODES[k]}, {v})' for k, v in values.items()) + '].')
@@ -111,6 +141,10 @@ def generate():
     for k in MODES:
         out.append(f'  | {MODES[k]} => [' + '; '.join(steps[k]) + ']')
     out.append('  end.\n')
+    out.append('(* guarded setters with their getters: setting id, lower / upper bound of the accepted argument, `c - x` written / returned when Some c; None = not supported *)')
+    for k, v in gs.items():
+        out.append(f'Definition {k} : option gsetter := {v or "None"}.')
+    out.append('')
     return '\n'.join(out) + '\n'
 
 
